@@ -147,9 +147,6 @@ func (o *OracleC16) OnOut(n *Node, st *Step, out *Out) {
 				s.note("proposal_inside_extended_wait")
 			}
 		case dbft.ChangeViewType, dbft.RecoveryRequestType:
-			if p.H <= o.first {
-				return
-			}
 			if o.poolEmpty(n) {
 				o.viol(n, "view_change_because_idle", "%s broadcast at height %d while the node's pool is empty (during %s): nobody is late, the chain is merely idle", p.T, p.H, st.describe())
 				return
